@@ -591,6 +591,7 @@ cands = {
  'implicit_i18n_attributes:none-vs-empty': ({}, {'implicit_i18n_attributes': frozenset()}, '<a title="t"/>'),
  'implicit_i18n_translate': ({'implicit_i18n_translate': True}, {'implicit_i18n_translate': False}, '<a>text</a>'),
  'trim_attribute_space': ({'trim_attribute_space': True}, {'trim_attribute_space': False}, '<a  x="1"\n   y="2"/>'),
+ 'body:non-ascii': ({'_body': '<p>Gr\u00fc\u00dfe</p>'}, {'_body': '<p>Gr\u00f6\u00dfe</p>'}, None),
  'default_marker': ({}, {}, '<a/>'),
  'tokenizer': ({}, {}, '<a/>'),
  'encoding': ({}, {}, '<a/>'),
@@ -604,9 +605,20 @@ for attr in want:
     a, b, body = cands[attr]
     if a == b: continue
     try:
+        if body is None:
+            # two different BODIES under the same configuration must get different keys
+            ba, bb = a['_body'], b['_body']
+            t0 = PageTemplate(ba)
+            names = ('macros', 'nothing', 'template')
+            if t0.digest(ba, names) == t0.digest(bb, names):
+                out[attr] = {'body_a': ba, 'body_b': bb, 'digest': t0.digest(ba, names)}
+            continue
         ta = PageTemplate(body, keep_source=True, **a); tb = PageTemplate(body, keep_source=True, **b)
         names = ('macros', 'nothing', 'template')
         da, db = ta.digest(body, names), tb.digest(body, names)
+        if ta.digest(body, names) != da or tb.digest(body, names) != db:
+            out['digest-not-a-function:' + attr] = {'body': body, 'config_a': repr(a),
+                                                     'first': da, 'second': ta.digest(body, names)}
         import re
         norm = lambda s: re.sub(r'\d{6,}', 'N', '\n'.join(l for l in s.split('\n') if not l.strip().startswith('#')))
         if da == db and norm(ta.source) != norm(tb.source):
@@ -854,7 +866,8 @@ def decorator_audit(spec):
     t0 = time.time()
     obls = []
     for rel in ('tokenize.py', 'parser.py', 'tal.py', 'tales.py', 'i18n.py', 'zpt/program.py',
-                'compiler.py', 'utils.py', 'exc.py', 'astutil.py', 'codegen.py'):
+                'compiler.py', 'utils.py', 'exc.py', 'astutil.py', 'codegen.py', 'template.py',
+                'zpt/template.py', 'loader.py', 'zpt/loader.py', 'nodes.py'):
         tree = parse(rel)
         bad, memo = [], []
         for n in ast.walk(tree):
@@ -863,6 +876,8 @@ def decorator_audit(spec):
                     name = ast.unparse(d.func if isinstance(d, ast.Call) else d)
                     if name in MEMO or name.split('.')[-1] in ('lru_cache', 'cached_property'):
                         memo.append('%s (line %d): @%s' % (n.name, n.lineno, ast.unparse(d)))
+                    elif name.split('.')[-1] in ('setter', 'getter', 'deleter'):
+                        continue            # property accessors
                     elif name not in KNOWN_DECORATORS and name.split('.')[-1] not in KNOWN_DECORATORS:
                         bad.append('%s (line %d): @%s' % (n.name, n.lineno, ast.unparse(d)))
         o = ob('%s.decorators' % rel, not bad and not memo,
